@@ -162,6 +162,16 @@ class Effects:
         if isinstance(f, ast.Attribute):
             base = f.value
             name = f.attr
+            if isinstance(base, ast.Name) and base.id == 'self' and name == '_parse':
+                extra = [self.fn_key[id(cb.target)] for cb in self._parse_callbacks().get(id(call), []) if id(cb.target) in self.fn_key]
+                t = self.mro_lookup(ci, name) if ci is not None else None
+                if t is not None and id(t) in self.fn_key:
+                    extra.append(self.fn_key[id(t)])
+                # default productions (ATKEYWORD/COMMENT/S/EOF) may be used as well
+                for k, f in self.fn_node.items():
+                    if k[1].endswith('_adddefaultproductions.ATKEYWORD') or k[1].endswith('_adddefaultproductions.COMMENT') or k[1].endswith('_adddefaultproductions.S'):
+                        extra.append(k)
+                return extra
             if isinstance(base, ast.Name) and base.id == 'self' and ci is not None:
                 t = self.mro_lookup(ci, name) or self.mro_lookup(ci, ci.mangled(name))
                 if t is None and name.startswith('__'):
@@ -192,6 +202,22 @@ class Effects:
             return list(self.by_method.get(name, []))
         return out
 
+    def _parse_callbacks(self):
+        if not hasattr(self, '_pcb'):
+            from .callbacks import callbacks
+
+            sites, cbs = callbacks(self.repo)
+            by_owner = {}
+            for cb in cbs:
+                by_owner.setdefault((cb.rel, cb.owner), []).append(cb)
+            self._pcb = {}
+            for m, fn, q, cls, call in sites:
+                lst = list(by_owner.get((m.rel, q), []))
+                if any(cb.owner == 'New.productions' for cb in cbs) and 'new.productions' in text(call):
+                    lst += by_owner.get((m.rel, 'New.productions'), [])
+                self._pcb[id(call)] = lst
+        return self._pcb
+
     def _ctor(self, cname):
         out = []
         for ci in self.classes.get(cname, []):
@@ -200,8 +226,13 @@ class Effects:
                 out.append(self.fn_key[id(t)])
         return out
 
-    def resolve_store(self, rel, qual, target):
-        """Setter keys of an attribute store ``obj.attr = ...``."""
+    def resolve_store(self, rel, qual, target, delete=False):
+        """Setter keys of an attribute store ``obj.attr = ...`` (or of an item
+        store / delete on ``self``)."""
+        if isinstance(target, ast.Subscript) and isinstance(target.value, ast.Name) and target.value.id == 'self':
+            ci = self.fn_class.get((rel, qual))
+            t = self.mro_lookup(ci, '__delitem__' if delete else '__setitem__') if ci else None
+            return [self.fn_key[id(t)]] if t is not None and id(t) in self.fn_key else []
         if not isinstance(target, ast.Attribute):
             return []
         ci = self.fn_class.get((rel, qual))
@@ -232,6 +263,29 @@ class Effects:
         return not (nr is not None and const(nr) is True)
 
     @staticmethod
+    def _rhs_kind(fn, st):
+        """'input' if the stored value is (part of) a parameter of the function -
+        text handed in by the caller that the setter still has to validate -
+        else 'derived'."""
+        if not isinstance(st, ast.Assign) or isinstance(fn, ast.Lambda):
+            return 'derived'
+        params = {a.arg for a in fn.args.args + fn.args.kwonlyargs} - {'self'}
+        v = st.value
+        if isinstance(v, ast.Name) and v.id in params:
+            return 'input'
+        return 'derived'
+
+    @staticmethod
+    def _msg(call):
+        """First string literal of a log call's message (identifies the site
+        independently of local variable names)."""
+        for a in call.args[:1]:
+            for x in ast.walk(a):
+                if isinstance(x, ast.Constant) and isinstance(x.value, str):
+                    return repr(x.value[:48])
+        return '...'
+
+    @staticmethod
     def is_dom_raise(st):
         if not isinstance(st, ast.Raise) or st.exc is None:
             return False
@@ -251,20 +305,23 @@ class Effects:
             elif isinstance(n, ast.Call):
                 if self.is_log_call(n):
                     if self.log_raises(n):
-                        sites.append((n, text(n.func) + '(...)', None))
+                        sites.append((n, text(n.func) + '(' + self._msg(n) + ')', None))
                 elif call_name(n) == 'self._checkReadonly':
                     sites.append((n, 'self._checkReadonly()', None))
                 else:
                     callees = self.resolve_call(rel, q, n)
                     if callees:
                         sites.append((n, text(n.func) + '(...)', callees))
-            elif isinstance(n, (ast.Assign, ast.AugAssign)):
-                tgts = n.targets if isinstance(n, ast.Assign) else [n.target]
+            elif isinstance(n, (ast.Assign, ast.AugAssign, ast.Delete)):
+                tgts = n.targets if not isinstance(n, ast.AugAssign) else [n.target]
                 for t in tgts:
                     for x in [t] + (list(t.elts) if isinstance(t, (ast.Tuple, ast.List)) else []):
-                        callees = self.resolve_store(rel, q, x)
+                        callees = self.resolve_store(rel, q, x, delete=isinstance(n, ast.Delete))
                         if callees:
-                            sites.append((x, f'{text(x)} = ... (setter)', callees))
+                            if isinstance(x, ast.Subscript):
+                                sites.append((x, ('del ' if isinstance(n, ast.Delete) else '') + 'self[...]' + ('' if isinstance(n, ast.Delete) else ' = ...'), callees))
+                            else:
+                                sites.append((x, f'{text(x)} = <{self._rhs_kind(fn, n)}> (setter)', callees))
         # drop sites protected by a try that catches DOM exceptions
         out = []
         for node, desc, callees in sites:
@@ -299,27 +356,270 @@ class Effects:
     def _compute(self):
         direct = {k: self._direct_sites(k) for k in self.fn_node}
         raises = {k: any(c is None for _, _, c in v) for k, v in direct.items()}
+        # 'hard' = can raise something other than the read-only guard
+        hard = {k: any(c is None and d != 'self._checkReadonly()' for _, d, c in v) for k, v in direct.items()}
         changed = True
         rounds = 0
         while changed:
             changed = False
             rounds += 1
             for k, v in direct.items():
-                if raises[k]:
-                    continue
                 for _, _, callees in v:
-                    if callees and any(raises.get(c) for c in callees):
+                    if not callees:
+                        continue
+                    if not raises[k] and any(raises.get(c) for c in callees):
                         raises[k] = True
                         changed = True
-                        break
+                    if not hard[k] and any(hard.get(c) for c in callees):
+                        hard[k] = True
+                        changed = True
         self._raises = raises
+        self._hard = hard
         self._sites = {}
         for k, v in direct.items():
             self._sites[k] = [(n, d, c) for n, d, c in v if c is None or any(raises.get(x) for x in c)]
         self.rounds = rounds
 
+    # -- writes ---------------------------------------------------------------
+    SELF_MUTATORS = {'append', 'insert', 'extend', 'pop', 'remove', 'clear', 'update', 'sort', 'reverse', 'replace', 'appendItem', 'appendToVal', 'rstrip', 'setdefault', '__delitem__', '__setitem__'}
+
+    @staticmethod
+    def self_attr(node):
+        """`self.a` / `self.a.b` ... -> 'a' (first attribute after self), else None"""
+        n = node
+        first = None
+        while isinstance(n, (ast.Attribute, ast.Subscript)):
+            if isinstance(n, ast.Attribute):
+                first = n.attr
+            n = n.value
+        if isinstance(n, ast.Name) and n.id == 'self':
+            return first
+        return None
+
+    def direct_writes(self, key):
+        """[(node, attr)] - stores / in-place mutations rooted at self inside the
+        function (nested defs excluded)."""
+        fn = self.fn_node[key]
+        out = []
+        for n in walk_local(fn, include_lambda=False):
+            if isinstance(n, (ast.Assign, ast.AugAssign, ast.Delete)):
+                tgts = n.targets if not isinstance(n, ast.AugAssign) else [n.target]
+                for t in tgts:
+                    for x in [t] + (list(t.elts) if isinstance(t, (ast.Tuple, ast.List)) else []):
+                        a = self.self_attr(x)
+                        if isinstance(x, ast.Attribute) and x.attr == '_readonly':
+                            continue  # guard flag of a Seq toggled around an internal write
+                        if a is not None and isinstance(x, (ast.Attribute, ast.Subscript)):
+                            out.append((n, a))
+            elif isinstance(n, ast.Call) and isinstance(n.func, ast.Attribute) and n.func.attr in self.SELF_MUTATORS:
+                a = self.self_attr(n.func.value)
+                if a is not None:
+                    out.append((n, a))
+        return out
+
+    def same_receiver(self, caller, callee):
+        """Is `self` of the callee the caller's receiver?  True for methods of
+        the caller's class hierarchy and for closures nested in its methods;
+        False for helper objects (selector.New) reached through callbacks."""
+        a = self.fn_class.get(caller)
+        b = self.fn_class.get(callee)
+        if a is None or b is None:
+            return a is b
+        if a is b:
+            return True
+        seen, todo = set(), [a]
+        while todo:
+            c = todo.pop()
+            if c.name in seen:
+                continue
+            seen.add(c.name)
+            for bn in c.bases:
+                todo.extend(self.classes.get(bn, []))
+        return b.name in seen
+
+    def compute_writes(self, scratch=()):
+        """writes[key] = set of self attributes a function may write, through
+        self-calls and setter stores on self, to a fixpoint."""
+        w = {}
+        calls = {}
+        for key in self.fn_node:
+            rel, q = key
+            w[key] = {a for _, a in self.direct_writes(key) if a not in scratch}
+            cs = []
+            fn = self.fn_node[key]
+            for n in walk_local(fn, include_lambda=False):
+                if isinstance(n, ast.Call) and isinstance(n.func, ast.Attribute):
+                    base = n.func.value
+                    if (isinstance(base, ast.Name) and base.id == 'self') or (isinstance(base, ast.Call) and call_name(base) == 'super'):
+                        cs.extend(c for c in self.resolve_call(rel, q, n) if self.same_receiver(key, c))
+                elif isinstance(n, ast.Call) and isinstance(n.func, ast.Name):
+                    # nested helper closures share `self`
+                    for c in self.resolve_call(rel, q, n):
+                        if c[0] == rel and c[1].startswith(q.rsplit('.', 1)[0]):
+                            cs.append(c)
+                elif isinstance(n, (ast.Assign, ast.AugAssign, ast.Delete)):
+                    for t in (n.targets if not isinstance(n, ast.AugAssign) else [n.target]):
+                        if isinstance(t, (ast.Attribute, ast.Subscript)) and isinstance(t.value, ast.Name) and t.value.id == 'self':
+                            cs.extend(self.resolve_store(rel, q, t, delete=isinstance(n, ast.Delete)))
+            calls[key] = cs
+        changed = True
+        while changed:
+            changed = False
+            for key, cs in calls.items():
+                for c in cs:
+                    add = w.get(c, set()) - w[key]
+                    if add:
+                        w[key] |= add
+                        changed = True
+        self.writes = w
+        self.self_calls = calls
+        return w
+
     def may_raise(self, key):
         return self._raises.get(key, False)
+
+    def site_is_hard(self, site):
+        """Can this site raise anything but NoModificationAllowedErr from the
+        read-only guard?"""
+        node, desc, callees = site
+        if callees is None:
+            return desc != 'self._checkReadonly()'
+        return any(self._hard.get(c) for c in callees)
+
+    def node_hard_raise(self, rel, expr_or_stmt):
+        return bool(self.hard_sites_at(rel, expr_or_stmt))
+
+    def hard_sites_at(self, rel, expr_or_stmt):
+        """Sites at this statement that can raise something other than the
+        read-only guard, after pruning callee branches that the call's own
+        arguments make dead (one level of context sensitivity)."""
+        m = self.repo.mod(rel)
+        fn = m.enclosing_def(expr_or_stmt)
+        while isinstance(fn, ast.Lambda):
+            fn = m.enclosing_def(fn)
+        key = self.fn_key.get(id(fn))
+        if key is None:
+            return []
+        by_id = {id(s[0]): s for s in self.sites(key) if self.site_is_hard(s)}
+        out = []
+        for x in walk_expr(expr_or_stmt):
+            s = by_id.get(id(x))
+            if s is None:
+                continue
+            node, desc, callees = s
+            if callees is None:
+                out.append(s)
+                continue
+            live = [c for c in callees if self._hard.get(c) and self._callee_live(m, fn, node, c)]
+            if live:
+                out.append(s)
+        return out
+
+    # -- one level of context sensitivity -----------------------------------
+    def _arg_kinds(self, m, fn, node, callee_fn):
+        """param name -> 'falsy' | 'object' for the parameters whose kind the
+        call site fixes."""
+        params = [a.arg for a in callee_fn.args.args]
+        defaults = dict(zip(params[len(params) - len(callee_fn.args.defaults):], callee_fn.args.defaults))
+        kinds = {}
+        if isinstance(node, ast.Call):
+            supplied = {}
+            pos = params[1:] if params and params[0] == 'self' else params
+            for p, a in zip(pos, node.args):
+                supplied[p] = a
+            for k in node.keywords:
+                if k.arg:
+                    supplied[k.arg] = k.value
+            if any(k.arg is None for k in node.keywords) or any(isinstance(a, ast.Starred) for a in node.args):
+                return {}
+            for p in pos:
+                if p in supplied:
+                    kinds[p] = self._expr_kind(m, fn, supplied[p])
+                elif p in defaults and isinstance(defaults[p], ast.Constant) and not defaults[p].value:
+                    kinds[p] = 'falsy'
+        elif isinstance(node, ast.Attribute):
+            # setter store: obj.attr = value ; the value is the statement's RHS
+            st = m.enclosing_stmt(node)
+            if isinstance(st, ast.Assign) and len(params) >= 2:
+                kinds[params[1]] = self._expr_kind(m, fn, st.value)
+        return {p: k for p, k in kinds.items() if k}
+
+    def _expr_kind(self, m, fn, e):
+        if isinstance(e, ast.Constant):
+            return 'falsy' if not e.value else ('str' if isinstance(e.value, str) else None)
+        if isinstance(e, ast.Call):
+            cn = call_name(e).split('.')[-1]
+            if cn in self.classes:
+                return 'object'
+            return None
+        if isinstance(e, ast.Name):
+            kinds = set()
+            for n in ast.walk(fn):
+                if isinstance(n, ast.Assign) and m.enclosing_def(n) is fn:
+                    for t in n.targets:
+                        if isinstance(t, ast.Name) and t.id == e.id:
+                            kinds.add(self._expr_kind(m, fn, n.value) if not isinstance(n.value, ast.Name) else None)
+                elif isinstance(n, (ast.For, ast.With, ast.AugAssign)) and any(isinstance(x, ast.Name) and x.id == e.id and isinstance(x.ctx, ast.Store) for x in ast.walk(n.target if isinstance(n, (ast.For, ast.AugAssign)) else ast.Tuple(elts=[i.optional_vars for i in n.items if i.optional_vars], ctx=ast.Store()))):
+                    kinds.add(None)
+            if fn is not None and e.id in [a.arg for a in fn.args.args]:
+                kinds.add(None)
+            if len(kinds) == 1:
+                return kinds.pop()
+        return None
+
+    def _callee_live(self, m, fn, node, callee):
+        """Does the callee still have a hard raising site once branches that the
+        call's arguments rule out are removed?"""
+        cf = self.fn_node[callee]
+        if isinstance(cf, ast.Lambda):
+            return True
+        kinds = self._arg_kinds(m, fn, node, cf)
+        if not kinds:
+            return True
+        cm = self.repo.mod(callee[0])
+        for site in self.sites(callee):
+            if not self.site_is_hard(site):
+                continue
+            if self._site_dead(cm, cf, site[0], kinds):
+                continue
+            # nested: constructor/setter sites inside the callee get the same treatment
+            snode, sdesc, scallees = site
+            if scallees is not None and not any(self._hard.get(c) and self._callee_live(cm, cf, snode, c) for c in scallees):
+                continue
+            return True
+        return False
+
+    @staticmethod
+    def _site_dead(cm, cf, node, kinds):
+        child = node
+        n = cm.parents.get(node)
+        while n is not None and n is not cf:
+            if isinstance(n, ast.If):
+                in_body = child in n.body
+                in_else = child in n.orelse
+                t = n.test
+                # if <param>:
+                if isinstance(t, ast.Name) and t.id in kinds:
+                    k = kinds[t.id]
+                    if in_body and k == 'falsy':
+                        return True
+                    if in_else and k in ('object', 'str'):
+                        return True
+                # if <param> is not None:
+                if isinstance(t, ast.Compare) and isinstance(t.left, ast.Name) and t.left.id in kinds and len(t.ops) == 1 and isinstance(t.comparators[0], ast.Constant) and t.comparators[0].value is None:
+                    k = kinds[t.left.id]
+                    if isinstance(t.ops[0], ast.IsNot) and in_body and k == 'falsy' :
+                        pass  # '' is not None: cannot decide
+                # if isinstance(<param>, str):
+                if isinstance(t, ast.Call) and call_name(t) == 'isinstance' and len(t.args) == 2 and isinstance(t.args[0], ast.Name) and t.args[0].id in kinds and text(t.args[1]) == 'str':
+                    k = kinds[t.args[0].id]
+                    if in_body and k in ('object', 'falsy'):
+                        return True
+                    if in_else and k == 'str':
+                        return True
+            child = n
+            n = cm.parents.get(n)
+        return False
 
     def sites(self, key):
         return self._sites.get(key, [])
@@ -357,3 +657,22 @@ class Effects:
                 if id(x) in sn:
                     out.append(sn[id(x)])
         return out
+
+
+def explain(eff, key, hard=True, depth=0, seen=None):
+    """One chain from a function to a direct raising site (for triage output)."""
+    seen = seen or set()
+    if key in seen or depth > 8:
+        return ['...']
+    seen.add(key)
+    for site in eff.sites(key):
+        node, desc, callees = site
+        if callees is None and (not hard or desc != 'self._checkReadonly()'):
+            return [f'{key[1]}: {desc}']
+    for site in eff.sites(key):
+        node, desc, callees = site
+        if callees:
+            for c in callees:
+                if (eff._hard if hard else eff._raises).get(c):
+                    return [f'{key[1]}: {desc}'] + explain(eff, c, hard, depth + 1, seen)
+    return ['?']
